@@ -2,7 +2,7 @@
 argument forms it is interpreted on.  Each entry of SCENARIOS maps a function to (properties it serves, generator of (label, args, kwargs, options))."""
 import itertools
 
-from .scenario import Obj, Sym, TypeV, Fn, Bound, render, module_glob
+from .scenario import Obj, Sym, TypeV, Fn, Bound, It, render, module_glob
 from .absint import Raised, Undecided
 
 DA = 'dimarray.core.dimarraycls.DimArray'
@@ -83,8 +83,29 @@ def mk_axis(name, size, labels=None, attrs=None, types=('Axis', 'AbstractAxis'),
             return Sym('sub', vals, i)
         return mk_axis(o.attrs['name'], Sym('call', 'len', (Sym('sub', vals, i),), {}), Sym('sub', vals, i), o.attrs.get('attrs'), o.types)
     ax.hooks['getitem'] = getitem
+
+    def setitem(itp, o, i, v):
+        if isinstance(i, slice) and i == slice(None, None, None):
+            if isinstance(v, (list, tuple)) and isinstance(o.attrs['size'], int) and len(v) != o.attrs['size']:
+                raise Raised('ValueError')
+            o.attrs['values'] = list(v) if isinstance(v, (list, tuple)) else v
+            return
+        o.attrs['values'] = Sym('call', 'SETITEM', (o.attrs['values'], i, v), {})
+    ax.hooks['setitem'] = setitem
+
+    def setattr_(itp, o, attr, v):
+        if attr == 'name' and not isinstance(v, str):
+            raise Raised('TypeError')
+        if attr == 'name' and v == '':
+            raise Raised('ValueError')
+        o.attrs[attr] = v
+    ax.hooks['setattr'] = setattr_
+    ax.hooks['iter'] = lambda itp, o: list(o.attrs['values']) if isinstance(o.attrs['values'], list) else [Sym('sub', o.attrs['values'], k) for k in range(o.attrs['size'])] \
+        if isinstance(o.attrs['size'], int) else (_ for _ in ()).throw(Undecided('iteration over labels of unknown size'))
     ax.hooks['eq'] = lambda itp, o, other: o is other or (isinstance(other, Obj) and render(other.attrs.get('values')) == render(o.attrs.get('values'))
                                                          and other.attrs.get('name') == o.attrs.get('name'))
+    if P_HOLDER:
+        ax.hooks['getattr'] = class_methods(P_HOLDER[0], AXIS, skip=('copy', 'name', 'size', 'values', 'attrs', 'tol', '__getitem__', '__setitem__', 'dtype'))
     return ax
 
 
@@ -99,6 +120,8 @@ def axis_factory(itp, args, kwargs):
         raise Raised('TypeError')
     if name == '':
         raise Raised('ValueError')
+    if isinstance(vals, It):
+        raise Raised('ValueError')                # np.asarray of an iterator / dict view is a 0-d object array: not 1-d labels
     if isinstance(vals, tuple):
         vals = list(vals)
     if isinstance(vals, list):
@@ -299,6 +322,9 @@ def conc(data, kind=None, shape=None):
 
     def setitem(itp, o, i, v):
         if isinstance(i, slice) and i == slice(None, None, None):
+            if isinstance(v, It):
+                o.attrs['_data'][:] = [tok('<%s object>' % v.name)] * o.attrs['shape'][0]      # NumPy stores the iterator object itself in every cell
+                return
             vals = itp.iterate(v)
             if len(vals) != o.attrs['shape'][0]:
                 raise Raised('ValueError')
@@ -1023,8 +1049,8 @@ def mk_dataset(P, variables, name='DS', axes=None):
         for v in variables.values():
             v.attrs['axes'] = mk_axes([a for a in axes if a.attrs['name'] in v.attrs['dims']])
     ds = Obj(name, types=('Dataset', 'AbstractDataset', 'dict'), attrs={'_dict': dict(variables), 'axes': mk_axes(axes), 'attrs': tok('ATTRS_' + name)})
-    ds.hooks['render'] = lambda o: 'DATASET(%s; dims=%s; attrs=%s)' % (', '.join('%s: %s' % (render(k), render(v)) for k, v in o.attrs['_dict'].items()),
-                                                                   [a.attrs['name'] for a in o.attrs['axes'].attrs['_list']], render(o.attrs['attrs']))
+    ds.hooks['render'] = lambda o: 'DATASET(%s; axes=%s; attrs=%s)' % (', '.join('%s: %s' % (render(k), render(v)) for k, v in o.attrs['_dict'].items()),
+                                                                   render(o.attrs['axes']), render(o.attrs['attrs']))
     ds.hooks['getitem'] = lambda itp, o, k: o.attrs['_dict'][k] if (not isinstance(k, (Obj, Sym)) and k in o.attrs['_dict']) else (_ for _ in ()).throw(Raised('KeyError'))
 
     def setitem(itp, o, k, v):
@@ -1033,9 +1059,9 @@ def mk_dataset(P, variables, name='DS', axes=None):
     ds.hooks['iter'] = lambda itp, o: list(o.attrs['_dict'].keys())
     ds.hooks['length'] = lambda itp, o: len(o.attrs['_dict'])
     ds.hooks['contains'] = lambda itp, o, k: (not isinstance(k, (Obj, Sym))) and k in o.attrs['_dict']
-    ds.methods['keys'] = lambda itp, o, a, k: list(o.attrs['_dict'].keys())
-    ds.methods['values'] = lambda itp, o, a, k: list(o.attrs['_dict'].values())
-    ds.methods['items'] = lambda itp, o, a, k: list(o.attrs['_dict'].items())
+    ds.methods['keys'] = lambda itp, o, a, k: It(list(o.attrs['_dict'].keys()), kind='view', name='dict_keys')
+    ds.methods['values'] = lambda itp, o, a, k: It(list(o.attrs['_dict'].values()), kind='view', name='dict_values')
+    ds.methods['items'] = lambda itp, o, a, k: It(list(o.attrs['_dict'].items()), kind='view', name='dict_items')
     ds.methods['to_dict'] = lambda itp, o, a, k: dict(o.attrs['_dict'])
 
     def copy(itp, o, a, k):
@@ -1220,6 +1246,97 @@ def sc_stack_ds(P, which):
     return gen
 
 
+def sc_axis_set(P):
+    out = []
+
+    def case(label, kw):
+        def mk():
+            ax = mk_axis('x', 3, [10, 20, 30], attrs={'units': 'm'})
+            return ([ax], kw(), {'overrides': std_overrides(P), 'post': lambda itp, r, ax=ax: 'returns %s; axis afterwards %s' % (render(r), render(ax))})
+        out.append((label, mk))
+    case('new labels', lambda: {'values': [1, 2, 3]})
+    case('new labels, positional', lambda: {'values': [1, 2, 3]})
+    case('new name', lambda: {'name': 'u'})
+    case('labels and name', lambda: {'values': [1, 2, 3], 'name': 'u'})
+    case('dict mapper', lambda: {'values': {10: 11, 30: 33}})
+    case('callable mapper', lambda: {'values': ast_lambda('lambda v: v + 1')})
+    case('attrs keyword', lambda: {'attrs': {'long_name': 'L'}})
+    case('metadata keyword', lambda: {'units': 'km'})
+    case('nothing', lambda: {})
+    case('inplace=False, new labels', lambda: {'values': [1, 2, 3], 'inplace': False})
+    case('inplace=False, new name', lambda: {'name': 'u', 'inplace': False})
+    case('wrong number of labels', lambda: {'values': [1, 2]})
+    case('non-string name', lambda: {'name': 3})
+    return out
+
+
+def sc_set_axis(P, which):
+    def gen(P):
+        out = []
+
+        def target():
+            if which == 'dataset':
+                return mk_dataset(P, {'a': var_stub('A', ('x',)), 'b': var_stub('B', ('x', 'y'))})
+            return arr_of(P, 'A', [('x', 3), ('y', 2)])
+
+        def case(label, args, kw):
+            def mk():
+                t = target()
+                return ([t] + list(args), dict(kw), {'overrides': ds_overrides(P), 'post': lambda itp, r, t=t: 'returns %s; operand afterwards %s' % (render(r), render(t))})
+            out.append((label, mk))
+        case('new labels along x by name', [[7, 8, 9]], {'axis': 'x'})
+        case('new labels along the default axis', [[7, 8, 9]], {})
+        case('new labels along position 1', [[5, 6]], {'axis': 1})
+        case('rename x', [], {'name': 'u', 'axis': 'x'})
+        case('rename x to its own name', [], {'name': 'x', 'axis': 'x'})
+        case('rename x to the name of another axis', [], {'name': 'y', 'axis': 'x'})
+        case('rename position 0 to the name of another axis', [], {'name': 'y', 'axis': 0})
+        case('labels and name', [[7, 8, 9]], {'name': 'u', 'axis': 'x'})
+        case('inplace=False, new labels', [[7, 8, 9]], {'axis': 'x', 'inplace': False})
+        case('inplace=False, rename', [], {'name': 'u', 'axis': 'x', 'inplace': False})
+        case('unknown axis', [[7, 8, 9]], {'axis': 'zz'})
+        return out
+    return gen
+
+
+def sc_operation(P):
+    out = []
+
+    def ctor(itp, a, k):
+        ax = a[1] if len(a) > 1 else k.get('axes')
+        return Sym('call', 'CONSTRUCT', (a[0], itp.iterate(ax) if isinstance(ax, Obj) else ax), {})
+
+    def ov():
+        o = std_overrides(P)
+        o['align_axes'] = lambda itp, a, k: tuple(Obj('aligned(%s)' % x.name, x.types, x.attrs, x.methods, **x.hooks) for x in itp.iterate(a[0]))
+        o['align_dims'] = lambda itp, a, k: tuple(Obj('samedims(%s)' % x.name, x.types, x.attrs, x.methods, **x.hooks) for x in a)
+        o['is_DimArray'] = lambda itp, a, k: isinstance(a[0], Obj) and 'DimArray' in a[0].types
+        return o
+    FUNC = lambda itp, a, k: Sym('call', 'FUNC', tuple(a), {})
+
+    def arr(name, spec):
+        axes = []
+        for d, lab in spec:
+            axes.append(mk_axis(d, len(lab), list(lab)) if isinstance(lab, list) else mk_axis(d, lab))
+        return mk_array(P, name, None, None, axes=axes, values=mk_values('V_' + name, [a.attrs['size'] for a in axes]), overrides=std_overrides(P))
+
+    def case(label, mk_args, **kw):
+        out.append((label, lambda: ([FUNC] + mk_args(), dict({'constructor': ctor}, **kw), {'overrides': ov()})))
+    case('array and scalar', lambda: [arr('A', [('x', 3)]), 2])
+    case('array and a 1-d ndarray', lambda: [arr('A', [('x', 3), ('y', 2)]), mk_values('N', [2])])
+    case('array and an ndarray of more dimensions', lambda: [arr('A', [('x', 3)]), mk_values('N', [3, 2])])
+    case('scalar and array', lambda: [2, arr('B', [('x', 3)])])
+    case('two arrays, same axes', lambda: [arr('A', [('x', 3), ('y', 2)]), arr('B', [('x', 3), ('y', 2)])])
+    case('left operand with a placeholder dimension', lambda: [arr('A', [('x', 3), ('y', [None])]), arr('B', [('x', 3), ('y', 2)])])
+    case('left operand with a placeholder dimension, right single label', lambda: [arr('A', [('x', 3), ('y', [None])]), arr('B', [('x', 3), ('y', ['k'])])])
+    case('left operand with a real single label', lambda: [arr('A', [('x', 3), ('y', ['k'])]), arr('B', [('x', 3), ('y', ['k'])])])
+    case('an empty dimension', lambda: [arr('A', [('x', [])]), arr('B', [('x', [])])])
+    case('0-d and 1-d', lambda: [arr('A', []), arr('B', [('x', 3)])])
+    case('no reindex, no broadcast', lambda: [arr('A', [('x', 3)]), arr('B', [('x', 3)])], reindex=False, broadcast=False)
+    case('default constructor', lambda: [arr('A', [('x', 3)]), 2], constructor=None)
+    return out
+
+
 def sc_axes_from(P):
     """Axes.from_shape / from_arrays / from_dict called directly"""
     out = []
@@ -1236,6 +1353,10 @@ SCENARIOS = {
     'dimarray.dataset.Dataset._rbinary_op': (('C14',), sc_ds_ops(None, '_rbinary_op')),
     'dimarray.dataset.Dataset._unary_op': (('C14',), sc_ds_ops(None, '_unary_op')),
     'dimarray.dataset.Dataset._apply_dimarray_axis': (('C14',), sc_ds_apply),
+    'dimarray.core.axes.Axis.set': (('C13', 'C05'), sc_axis_set),
+    'dimarray.dataset.Dataset.set_axis': (('C13', 'C05'), sc_set_axis(None, 'dataset')),
+    'dimarray.core.dimarraycls.DimArray.set_axis': (('C05', 'C13'), sc_set_axis(None, 'array')),
+    'dimarray.core.operation.operation': (('C04',), sc_operation),
     'dimarray.dataset.stack_ds': (('C14', 'C12'), sc_stack_ds(None, 'stack_ds')),
     'dimarray.dataset.concatenate_ds': (('C14', 'C12'), sc_stack_ds(None, 'concatenate_ds')),
     'dimarray.core.axes._flatten': (('C11', 'C05'), sc_flatten_labels),
